@@ -21,11 +21,15 @@ func VSStart(cfg *factory.Config, d forwarder.Driver, wg *sync.WaitGroup) *VServ
 	return v
 }
 
-func (v *VServer) RcvCh() chan ReceivePacket          { return v.S.rcvCh }
-func (v *VServer) SrCh() chan report.SessReport        { return v.S.srCh }
-func (v *VServer) TrToCh() chan TransactionTimeout     { return v.S.trToCh }
-func (v *VServer) HasConn() bool                       { return v.S.conn != nil }
-func (v *VServer) CloseConn()                          { if v.S.conn != nil { _ = v.S.conn.Close() } }
+func (v *VServer) RcvCh() chan ReceivePacket       { return v.S.rcvCh }
+func (v *VServer) SrCh() chan report.SessReport    { return v.S.srCh }
+func (v *VServer) TrToCh() chan TransactionTimeout { return v.S.trToCh }
+func (v *VServer) HasConn() bool                   { return v.S.conn != nil }
+func (v *VServer) CloseConn() {
+	if v.S.conn != nil {
+		_ = v.S.conn.Close()
+	}
+}
 func (v *VServer) NSess() int {
 	n := 0
 	for _, s := range v.S.lnode.sess {
@@ -48,4 +52,24 @@ func (v *VServer) Summary() string {
 		}
 	}
 	return out
+}
+
+// VSetQlen scales the per-PDR buffer queue of one session (the source constant BUFFQ_LEN is untouched); it must
+// be called before the first packet is buffered for that PDR.
+func (v *VServer) VSetQlen(seid uint64, n int) bool {
+	sess, err := v.S.lnode.Sess(seid)
+	if err != nil {
+		return false
+	}
+	sess.qlen = n
+	return true
+}
+
+// VQLen: packets buffered for (session, PDR).
+func (v *VServer) VQLen(seid uint64, pdr uint16) int {
+	sess, err := v.S.lnode.Sess(seid)
+	if err != nil {
+		return -1
+	}
+	return sess.Len(pdr)
 }
